@@ -467,7 +467,13 @@ namespace _ST_PRIVATE
                 *dest++ = badchar_substitute;
             } else {
                 error = write_utf16(dest, bigch);
-                ST_ASSERT(error == conversion_error_t::success, "Input character out of range");
+                if (error != conversion_error_t::success) {
+                    // 4-byte UTF-8 form above U+10FFFF: not representable in
+                    // UTF-16 (utf16_measure already counts one unit for it)
+                    if (validation == ST::check_validity)
+                        return error;
+                    *dest++ = badchar_substitute;
+                }
             }
         }
 
